@@ -94,7 +94,12 @@ fn main() {
     let prop2 = prop.clone();
     let ev_path = verif.join("evidence").join(format!("{prop}.json"));
     let (tier2, seed2) = (tier.clone(), seed);
-    let wd = mon::Watchdog::start(20.0, move |what| {
+    // one watched operation is one decode / one tracker step for the decoder checks, but one whole
+    // history (up to tens of thousands of steps, each followed by a snapshot of the tracker) for
+    // C12-C15: there the limit is per history, and large enough for the longest marathon on a
+    // machine that is busy with other work
+    let wd_limit = if ["C12", "C13", "C14", "C15"].contains(&prop.as_str()) { 900.0 } else { 20.0 };
+    let wd = mon::Watchdog::start(wd_limit, move |what| {
         let _ = std::fs::create_dir_all(&rd2);
         let p = rd2.join("hang.json");
         let _ = std::fs::write(&p, format!("{{\"property\":\"C01\",\"signature\":\"C01|hang\",\"input\":{what:?}}}"));
@@ -102,11 +107,11 @@ fn main() {
         // therefore reports it under its own id (the run cannot complete)
         println!("VIOLATION property={} replay={}", prop2, p.display());
         println!("  signature: C01|hang");
-        println!("  one operation consumed more than 20 s of CPU time without returning: {what}");
+        println!("  one operation consumed more than {wd_limit} s of CPU time without returning: {what}");
         // the run ends here: leave an evidence file that says so
         let ev = serde_json::json!({
             "property_id": prop2, "tier": tier2, "seed": seed2, "level": "exploration",
-            "coverage": {"evaluations": 1, "distinct_nontrivial": 2, "rule": "run aborted by the CPU-time watchdog: one operation did not return within 20 s of CPU time; counts of the aborted run are not available", "samples": [what], "aborted_by_watchdog": true},
+            "coverage": {"evaluations": 1, "distinct_nontrivial": 2, "rule": "run aborted by the CPU-time watchdog: one operation did not return within its CPU-time limit (20 s per decoder operation, 900 s per tracker history); counts of the aborted run are not available", "samples": [what], "aborted_by_watchdog": true},
             "assumptions": [], "wall_s": 0.0, "violations": 1});
         if let Some(d) = ev_path.parent() {
             let _ = std::fs::create_dir_all(d);
